@@ -57,6 +57,10 @@ func symBytes(sym, mime string) string {
 		return "Content-Type"
 	case "UK":
 		return "X-Unknown"
+	case "CrL": // a carriage return where the hyphen belongs (0x0D for 0x2D): not the name of any known field
+		return "Content\rLength"
+	case "CrT":
+		return "content\rTYPE"
 	case "big":
 		return "99999999999999999999"
 	case "mt":
